@@ -1,22 +1,24 @@
 (* Lemmas about the two splitting stages of Model/RRPlace.v (nm_stage = RockRidge._add_name, sl_group /
-   sl_stage = RockRidge._new_symlink) and about the byte length of the entries RockRidge.new creates.
-   Used by Proofs/RRPlaceProofs.v.
+   sl_stage = RockRidge._new_symlink, the repaired one) and about the byte length of the entries RockRidge.new
+   creates.  Used by Proofs/RRPlaceProofs.v.
 
-     ln_eqb / comp_len_bridge   Model/LongNames.v and Model/RREntries.v decide "." ".." "/" the same way
+     comp_len_bridge            Model/LongNames.v and Model/RREntries.v decide "." ".." "/" the same way
      sl_rec_ok                  an RRSLRecord built by sl_group records (rec_sl) to exactly
                                 current_length() bytes, provided current_length() <= 255
      view_group                 the on-disk reading of the sl_group records is LongNames.group of the trace
-     tokens_within / sl_guard   the pessimistic room tracker of _new_symlink never lets a record grow beyond
-                                the room it started with: add_component cannot raise, and the record kept
-                                in the directory record has current_length() <= 5 + room
-     sl_track_lens              the per-component bookkeeping of the code = sum of current_length()
-     nm_stage_spec / sl_stage_spec / sl_stage_no_ce / sl_stage_some *)
+     view_size                  current_length() = 5 + the bytes of the components read back
+     sl_guard                   no record grows beyond the room it was opened with: add_component cannot raise, and
+                                the record kept in the directory record has current_length() <= 5 + room
+     sl_track_lens              the per-component bookkeeping of the code (complen) = sum of current_length()
+     sl_single                  the uncut components fit the first room -> one record, of RRSLRecord.length(split)
+     sl_total_ge                cutting only adds headers: the records together are >= the uncut entry
+     nm_stage_spec / sl_stage_spec / sl_stage_some / sl_stage_no_ce / sl_stage_view / view_bytes *)
 From Coq Require Import ZArith List Bool Lia ZifyBool.
 From PV.Base Require Import Prim.
 From PV.Model Require Import Codec RREntries RRWalk RRPlace.
 From PV.Model Require LongNames.
-From PV.Proofs Require Import CodecProofs RREntriesProofs.
-From PV.Proofs Require LongNamesProofs RRSLProofs.
+From PV.Proofs Require Import CodecProofs RREntriesProofs RRSLProofs.
+From PV.Proofs Require LongNamesProofs.
 Import ListNotations.
 Local Open Scope Z_scope.
 
@@ -25,90 +27,32 @@ Lemma sumz_app a b : sumz (a ++ b) = sumz a + sumz b.
 Proof. induction a as [|x a IH]; cbn [app sumz]; lia. Qed.
 Lemma sumz_nonneg l : Forall (fun x => 0 <= x) l -> 0 <= sumz l.
 Proof. induction 1; cbn [sumz]; lia. Qed.
-Lemma sumz_in l x : Forall (fun x => 0 <= x) l -> In x l -> x <= sumz l.
-Proof.
-  induction 1 as [|y l Hy Hl IH]; intros Hin; [destruct Hin|]. cbn [sumz].
-  pose proof (sumz_nonneg l Hl). destruct Hin as [->|Hin]; [lia|specialize (IH Hin); lia].
-Qed.
 
-(* ---- the two copies of zlist_eqb ---- *)
-Lemma ln_eqb a : forall b, LongNames.zlist_eqb a b = zlist_eqb a b.
-Proof. reflexivity. Qed.   (* the two fixpoints are syntactically the same term *)
-Lemma ln_special s :
-  LongNames.is_dot s || LongNames.is_dotdot s || LongNames.is_slash s = is_special s.
-Proof. reflexivity. Qed.
+(* ---- the two copies of zlist_eqb are the same term ---- *)
 Lemma comp_len_bridge s : LongNames.comp_len_name s = sl_comp_length s.
-Proof. unfold LongNames.comp_len_name, sl_comp_length. rewrite ln_special. reflexivity. Qed.
+Proof. reflexivity. Qed.
 Lemma sl_comp_length_ge s : 2 <= sl_comp_length s <= 2 + zlen s.
 Proof. unfold sl_comp_length. pose proof (zlen_nonneg s). destruct (is_special s); lia. Qed.
 
-(* ---- components made by Component.factory (+ set_continued) ---- *)
-Definition mk_fcomp (b : bool) (s : list Z) : comp := if b then comp_set_continued (sl_factory s) else sl_factory s.
-Definition fcomp (c : comp) : Prop := exists b s, c = mk_fcomp b s.
-
-Lemma fcomp_name b s : comp_name (mk_fcomp b s) = s.
-Proof. destruct b; [apply RRSLProofs.continued_name|apply RRSLProofs.factory_name]. Qed.
-
-Lemma fcomp_cases b s :
-  (is_special s = true /\ zlen (sl_comp_enc (mk_fcomp b s)) = 2 /\ sl_comp_packable (mk_fcomp b s) = true) \/
-  (is_special s = false /\ mk_fcomp b s = mk_comp (if b then 1 else 0) (zlen s) s).
-Proof.
-  unfold is_special, mk_fcomp, sl_factory.
-  destruct (zlist_eqb s s_dot) eqn:E1; [apply zlist_eqb_eq in E1; subst; left; destruct b; repeat split|].
-  destruct (zlist_eqb s s_dotdot) eqn:E2; [apply zlist_eqb_eq in E2; subst; left; destruct b; repeat split|].
-  destruct (zlist_eqb s s_slash) eqn:E3; [apply zlist_eqb_eq in E3; subst; left; destruct b; repeat split|].
-  right. destruct b; split; reflexivity.
-Qed.
-
-Lemma fcomp_enc_len c : fcomp c -> zlen (sl_comp_enc c) = sl_comp_length (comp_name c).
-Proof.
-  intros (b & s & ->). rewrite fcomp_name. unfold sl_comp_length.
-  destruct (fcomp_cases b s) as [(Hs & Hl & _)|(Hs & ->)]; rewrite Hs; [exact Hl|].
-  destruct b; [change (sl_comp_enc (mk_comp 1 (zlen s) s)) with ([1; zlen s] ++ s)
-             |change (sl_comp_enc (mk_comp 0 (zlen s) s)) with ([0; zlen s] ++ s)];
-    cbn [c_data]; rewrite zlen_app; reflexivity.
-Qed.
-Lemma fcomp_packable c : fcomp c -> sl_comp_length (comp_name c) <= 255 -> sl_comp_packable c = true.
-Proof.
-  intros (b & s & ->). rewrite fcomp_name. unfold sl_comp_length.
-  destruct (fcomp_cases b s) as [(Hs & _ & Hp)|(Hs & ->)]; rewrite Hs; [intros _; exact Hp|].
-  intros H. pose proof (zlen_nonneg s). unfold sl_comp_packable. cbn [c_flags c_len].
-  destruct b; cbn [flag_set]; unfold u8_ok; cbn; lia.
-Qed.
-
 (* ---- an SL record: current_length, recorded bytes ---- *)
-Definition comp_lens (cs : list comp) : Z := sumz (map (fun c => sl_comp_length (comp_name c)) cs).
+Definition comp_lens (cs : list comp) : Z := sumz (map comp_recorded_length cs).
 Lemma current_length_sum s : sl_current_length s = 5 + comp_lens (sl_comps s).
 Proof.
-  unfold sl_current_length, len_sl, comp_lens. rewrite fold_left_sum. f_equal.
+  unfold sl_current_length, comp_lens. rewrite fold_left_sum. f_equal.
   induction (sl_comps s) as [|c cs IH]; cbn [map fold_right sumz]; [reflexivity|rewrite IH; reflexivity].
 Qed.
-Lemma comp_lens_nonneg cs : Forall (fun x => 0 <= x) (map (fun c => sl_comp_length (comp_name c)) cs).
-Proof. apply Forall_forall. intros x Hx. apply in_map_iff in Hx. destruct Hx as (c & <- & _).
-  pose proof (sl_comp_length_ge (comp_name c)). lia. Qed.
+Lemma current_length_emit c s : sl_current_length (mk_sl (sl_flags s) (c :: sl_comps s))
+  = comp_recorded_length c + sl_current_length s.
+Proof. rewrite !current_length_sum. cbn [sl_comps]. unfold comp_lens. cbn [map sumz]. lia. Qed.
 
-Definition sl_made (s : sl_rec) : Prop := Forall fcomp (sl_comps s) /\ (sl_flags s = 0 \/ sl_flags s = 1).
-
-Lemma enc_comps_len cs : Forall fcomp cs -> zlen (concat (map sl_comp_enc cs)) = comp_lens cs.
-Proof.
-  induction 1 as [|c cs Hc Hcs IH]; [reflexivity|]. cbn [map concat]. unfold comp_lens in *.
-  cbn [map sumz]. rewrite zlen_app, IH, (fcomp_enc_len c Hc). reflexivity.
-Qed.
+Definition sl_made (s : sl_rec) : Prop := Forall made (sl_comps s) /\ (sl_flags s = 0 \/ sl_flags s = 1).
 
 Theorem sl_rec_ok s : sl_made s -> sl_current_length s <= 255 ->
   rec_sl s = Some (enc_sl s) /\ zlen (enc_sl s) = sl_current_length s.
 Proof.
-  intros [Hc Hf] Hl. pose proof (current_length_sum s) as Hs.
-  pose proof (sumz_nonneg _ (comp_lens_nonneg (sl_comps s))) as Hn. fold (comp_lens (sl_comps s)) in Hn.
-  split.
-  - unfold rec_sl.
-    assert (P : forallb sl_comp_packable (sl_comps s) = true).
-    { apply forallb_forall. intros c Hin. apply fcomp_packable; [exact (proj1 (Forall_forall _ _) Hc c Hin)|].
-      assert (sl_comp_length (comp_name c) <= comp_lens (sl_comps s)); [|lia].
-      apply sumz_in; [apply comp_lens_nonneg|]. apply in_map_iff. eauto. }
-    rewrite P. replace (u8_ok (sl_current_length s)) with true by (unfold u8_ok; lia).
-    replace (u8_ok (sl_flags s)) with true by (unfold u8_ok; lia). reflexivity.
-  - unfold enc_sl. rewrite zlen_app, enc_comps_len by exact Hc. rewrite Hs. reflexivity.
+  destruct s as [fl cs]. intros [Hc Hf] Hl. cbn [sl_comps sl_flags] in *.
+  assert (U : u8_ok fl = true) by (destruct Hf as [-> | ->]; reflexivity).
+  destruct (sl_made_roundtrip fl cs [] U Hc Hl) as (R & _ & _ & _ & Z). auto.
 Qed.
 
 (* ---- sl_group ---- *)
@@ -117,40 +61,27 @@ Proof.
   induction ts as [|t r IH]; cbn [sl_group]; [discriminate|].
   destruct (comp_of_tok t); [|discriminate]. destruct (sl_group r); [contradiction|discriminate].
 Qed.
-Lemma comp_of_tok_fcomp t c : comp_of_tok t = Some c -> fcomp c /\ sl_comp_length (comp_name c) = tok_len t.
+Definition tok_wf (t : LongNames.tok) : Prop :=
+  match t with LongNames.TSpecial (LongNames.CName _ _) => False | _ => True end.
+
+Lemma comp_of_tok_made t c : comp_of_tok t = Some c -> made c /\ comp_recorded_length c = tok_len t.
 Proof.
   destruct t as [|k|b s]; cbn [comp_of_tok tok_len]; intros H; [discriminate| |]; apply some_inv in H; subst c.
-  - split; [exists false; eexists; reflexivity|]. rewrite (proj1 (RRSLProofs.factory_name _)). reflexivity.
-  - split; [exists b, s; reflexivity|]. change (sl_comp_length (comp_name (mk_fcomp b s)) = sl_comp_length s).
-    rewrite fcomp_name. reflexivity.
+  - split; [eexists; left; reflexivity|apply factory_recorded].
+  - split; [exists s; destruct b; auto|destruct b; reflexivity].
 Qed.
 Lemma sl_group_made ts : Forall sl_made (sl_group ts).
 Proof.
   induction ts as [|t r IH]; cbn [sl_group].
   - constructor; [split; [constructor|left; reflexivity]|constructor].
   - destruct (comp_of_tok t) as [c|] eqn:E.
-    + destruct (comp_of_tok_fcomp _ _ E) as [Hc _]. pose proof (sl_group_nonnil r) as Hn.
+    + destruct (comp_of_tok_made _ _ E) as [Hc _]. pose proof (sl_group_nonnil r) as Hn.
       destruct (sl_group r) as [|s rs]; [contradiction|]. inversion IH as [|? ? [H1 H2] H3]; subst.
       cbn [sl_emit]. constructor; [|exact H3]. split; [constructor; assumption|exact H2].
     + constructor; [split; [constructor|right; reflexivity]|exact IH].
 Qed.
 
 (* the on-disk reading (what RRSLRecord.parse of the recorded bytes yields, as LongNames components) *)
-Definition tok_wf (t : LongNames.tok) : Prop :=
-  match t with LongNames.TSpecial (LongNames.CName _ _) => False | _ => True end.
-
-Lemma view_fcomp b s :
-  LongNames.pair_comp (c_flags (mk_fcomp b s), c_data (mk_fcomp b s)) = LongNames.factory b s.
-Proof.
-  unfold LongNames.factory, LongNames.is_dot, LongNames.is_dotdot, LongNames.is_slash.
-  change (LongNames.zlist_eqb s [46]) with (zlist_eqb s s_dot).
-  change (LongNames.zlist_eqb s [46; 46]) with (zlist_eqb s s_dotdot).
-  change (LongNames.zlist_eqb s [47]) with (zlist_eqb s s_slash).
-  unfold mk_fcomp, sl_factory.
-  destruct (zlist_eqb s s_dot); [destruct b; reflexivity|].
-  destruct (zlist_eqb s s_dotdot); [destruct b; reflexivity|].
-  destruct (zlist_eqb s s_slash); destruct b; reflexivity.
-Qed.
 Lemma view_emit c k : k <> [] ->
   map sl_view (sl_emit c k) = LongNames.emit (LongNames.pair_comp (c_flags c, c_data c)) (map sl_view k).
 Proof. destruct k as [|s rs]; [contradiction|reflexivity]. Qed.
@@ -161,9 +92,28 @@ Proof.
   destruct t as [|k|b s]; cbn [comp_of_tok LongNames.group].
   - cbn [map]. rewrite IH. reflexivity.
   - rewrite view_emit by apply sl_group_nonnil. rewrite IH. destruct k; [reflexivity..|destruct Ht].
-  - rewrite view_emit by apply sl_group_nonnil. rewrite IH.
-    change (if b then comp_set_continued (sl_factory s) else sl_factory s) with (mk_fcomp b s).
-    rewrite view_fcomp. reflexivity.
+  - rewrite view_emit by apply sl_group_nonnil. rewrite IH. destruct b; reflexivity.
+Qed.
+
+(* recorded_length() of a built component = the bytes of the component read back *)
+Lemma made_view_size c : made c ->
+  comp_recorded_length c = LongNames.comp_size (LongNames.pair_comp (c_flags c, c_data c)).
+Proof.
+  intros (s & H). assert (P : forall f, f = 0 \/ f = 1 ->
+    comp_recorded_length (mk_comp f (zlen s) s) = LongNames.comp_size (LongNames.pair_comp (f, s))).
+  { intros f [-> | ->]; [change (LongNames.pair_comp (0, s)) with (LongNames.CName false s)
+                        |change (LongNames.pair_comp (1, s)) with (LongNames.CName true s)];
+      rewrite LongNamesProofs.comp_size_name; reflexivity. }
+  destruct H as [-> | [-> | ->]].
+  - destruct (factory_cases s) as [[-> ->]|[[-> ->]|[[-> ->]| -> ]]]; try reflexivity. apply P. auto.
+  - apply P. auto.
+  - apply P. auto.
+Qed.
+Lemma view_size s : sl_made s -> sl_current_length s = 5 + LongNames.comps_size (snd (sl_view s)).
+Proof.
+  intros [Hc _]. rewrite current_length_sum. f_equal. unfold comp_lens, sl_view. cbn [snd].
+  induction Hc as [|c cs H1 H2 IH]; [reflexivity|]. cbn [map sumz LongNames.comps_size fold_right].
+  rewrite (made_view_size c H1), IH. reflexivity.
 Qed.
 
 Lemma wf_pre (b : bool) ts : Forall tok_wf ((if b then [LongNames.TBrk] else []) ++ ts) <-> Forall tok_wf ts.
@@ -185,103 +135,110 @@ Proof.
   eapply cut_wf; exact O.
 Qed.
 
-(* ---- the room tracker ---- *)
-Fixpoint within (room : Z) (ts : list LongNames.tok) : Prop :=
-  match ts with
-  | [] => 0 <= room
-  | LongNames.TBrk :: r => 0 <= room /\ within 250 r
-  | t :: r => within (room - tok_len t) r
-  end.
-Definition cont (a : Z) (tail : list LongNames.tok) : Prop :=
-  forall room, a <= room -> 0 <= room -> within room tail.
-Lemma within_pre (b : bool) room ts : 0 <= room ->
-  within (if b then 250 else room) ts -> within room ((if b then [LongNames.TBrk] else []) ++ ts).
-Proof. destruct b; cbn [app within]; auto. Qed.
+(* ---- rooms ---- *)
+Lemma tok_len_size t : tok_wf t -> t <> LongNames.TBrk -> tok_len t = LongNamesProofs.tok_size t.
+Proof. destruct t as [|c|b s]; intros W N; [congruence| |reflexivity]. destruct c; [reflexivity..|destruct W]. Qed.
 
-Lemma cut_within fuel : forall area rest ts a tail room,
-  LongNames.cut_name fuel 250 area rest = (ts, a) -> (length rest < fuel)%nat ->
-  area <= room -> 0 <= room -> cont a tail -> within room (ts ++ tail).
-Proof.
-  induction fuel as [|f IH]; intros area rest ts a tail room H Hf Ha Hr Hc; [lia|].
-  rewrite LongNamesProofs.cut_name_S in H. cbv zeta in H.
-  set (brk := area <? 3) in *. set (area1 := if brk then 250 else area) in *.
-  set (room1 := if brk then 250 else room).
-  assert (H1 : 3 <= area1 <= room1 /\ 0 <= room1) by (unfold area1, room1, brk; destruct (area <? 3) eqn:E; lia).
-  rewrite comp_len_bridge in H. pose proof (sl_comp_length_ge rest) as Hcl.
-  pose proof (LongNamesProofs.comp_len_ge rest) as [Hge _]. rewrite comp_len_bridge in Hge.
-  set (lz := if area1 <? sl_comp_length rest then area1 - 2 else sl_comp_length rest) in *.
-  pose proof (sl_comp_length_ge (firstn (Z.to_nat lz) rest)) as Hsl.
-  assert (Hfl : zlen (firstn (Z.to_nat lz) rest) <= lz).
-  { unfold zlen. rewrite firstn_length. unfold lz. destruct (area1 <? sl_comp_length rest); lia. }
-  destruct (LongNames.len rest <=? lz) eqn:D.
-  - inversion H; subst ts a; clear H. rewrite <- app_assoc. apply within_pre; [exact Hr|].
-    fold room1. cbn [app within tok_len]. apply Hc; [|].
-    + assert (E : firstn (Z.to_nat lz) rest = rest) by (apply firstn_all2; unfold LongNames.len in D; lia).
-      rewrite E in *. unfold lz in *. destruct (area1 <? sl_comp_length rest) eqn:E2; lia.
-    + unfold lz in *. destruct (area1 <? sl_comp_length rest) eqn:E2; [lia|].
-      rewrite firstn_all2 by (unfold LongNames.len in D; lia). lia.
-  - destruct (LongNames.cut_name f 250 _ _) as [ts' a'] eqn:R. inversion H; subst ts a; clear H.
-    rewrite <- app_assoc. apply within_pre; [exact Hr|]. fold room1. cbn [app within tok_len].
-    assert (Hlz : lz = area1 - 2).
-    { unfold lz in *. destruct (area1 <? sl_comp_length rest) eqn:E2; [reflexivity|].
-      unfold LongNames.len, zlen in *. lia. }
-    eapply IH; [exact R| | | |exact Hc].
-    + rewrite skipn_length. unfold LongNames.len in D. lia.
-    + lia.
-    + lia.
-Qed.
-
-Lemma tokens_within cs : forall area room, area <= room -> 0 <= room ->
-  within room (LongNames.sl_tokens 250 area cs).
-Proof.
-  induction cs as [|c cs IH]; intros area room Ha Hr; [exact Hr|]. cbn [LongNames.sl_tokens].
-  destruct (LongNames.one_comp 250 area c) as [ts a] eqn:O.
-  assert (Hc : cont a (LongNames.sl_tokens 250 a cs)) by (intros room' H1 H2; apply IH; assumption).
-  destruct c as [| | |b p]; cbn [LongNames.one_comp] in O;
-    try (inversion O; subst ts a; rewrite <- app_assoc; apply within_pre; [exact Hr|];
-         cbn [app within tok_len]; apply Hc; destruct (area <? 2) eqn:E; cbn; lia).
-  eapply cut_within; [exact O|lia|exact Ha|exact Hr|exact Hc].
-Qed.
-
-Lemma current_length_emit c s : sl_current_length (mk_sl (sl_flags s) (c :: sl_comps s))
-  = sl_comp_length (comp_name c) + sl_current_length s.
-Proof. rewrite !current_length_sum. cbn [sl_comps]. unfold comp_lens. cbn [map sumz]. lia. Qed.
-
-Lemma group_within ts : forall room, within room ts ->
-  exists r0 rs, sl_group ts = r0 :: rs /\ sl_current_length r0 <= 5 + room /\
+Lemma group_fits ts : forall room, Forall tok_wf ts -> LongNamesProofs.fits room 250 ts ->
+  exists r0 rs, sl_group ts = r0 :: rs /\ sl_current_length r0 <= 5 + Z.max 0 room /\
                 Forall (fun r => sl_current_length r <= 255) rs.
 Proof.
-  induction ts as [|t r IH]; intros room H.
-  - exists (mk_sl 0 []), []. split; [reflexivity|]. change (sl_current_length (mk_sl 0 [])) with 5.
-    cbn [within] in H. split; [lia|constructor].
-  - cbn [sl_group]. destruct (comp_of_tok t) as [c|] eqn:E.
-    + assert (H' : within (room - tok_len t) r) by (destruct t; [discriminate|exact H|exact H]).
-      destruct (IH _ H') as (r0 & rs & -> & H1 & H2). destruct (comp_of_tok_fcomp _ _ E) as [_ Hl].
-      eexists _, rs. split; [reflexivity|]. split; [|exact H2]. rewrite current_length_emit. lia.
-    + destruct t; try discriminate. destruct H as [H0 H']. destruct (IH _ H') as (r0 & rs & -> & H1 & H2).
+  induction ts as [|t r IH]; intros room W H.
+  - exists (mk_sl 0 []), []. split; [reflexivity|]. change (sl_current_length (mk_sl 0 [])) with 5. split; [lia|constructor].
+  - inversion W as [|? ? Wt Wr]; subst. cbn [sl_group]. destruct (comp_of_tok t) as [c|] eqn:E.
+    + assert (Nb : t <> LongNames.TBrk) by (intros ->; discriminate E).
+      assert (H' : LongNamesProofs.tok_size t <= room /\ LongNamesProofs.fits (room - LongNamesProofs.tok_size t) 250 r)
+        by (destruct t; [congruence|exact H|exact H]).
+      destruct H' as [Hs H']. destruct (IH _ Wr H') as (r0 & rs & -> & H1 & H2).
+      destruct (comp_of_tok_made _ _ E) as [_ Hl]. rewrite (tok_len_size t Wt Nb) in Hl.
+      eexists _, rs. split; [reflexivity|]. split; [|exact H2]. rewrite current_length_emit.
+      assert (0 <= LongNamesProofs.tok_size t).
+      { destruct t as [|k|b s]; [congruence|apply LongNamesProofs.comp_size_nonneg|cbn [LongNamesProofs.tok_size]; unfold LongNames.len; lia]. }
+      lia.
+    + destruct t; try discriminate. cbn [LongNamesProofs.fits] in H. destruct (IH _ Wr H) as (r0 & rs & -> & H1 & H2).
       eexists _, _. split; [reflexivity|]. change (sl_current_length (mk_sl 1 [])) with 5.
       split; [lia|]. constructor; [lia|exact H2].
 Qed.
 
 (* add_component never raises; the first record fits the room it was opened with *)
-Theorem sl_guard r1 cs : 0 <= r1 <= 250 ->
-  exists r0 rs, sl_group (LongNames.sl_tokens 250 r1 cs) = r0 :: rs /\ sl_current_length r0 <= 5 + r1 /\
+Theorem sl_guard r1 cs : r1 <= 250 ->
+  exists r0 rs, sl_group (LongNames.sl_tokens 250 r1 cs) = r0 :: rs /\ sl_current_length r0 <= 5 + Z.max 0 r1 /\
     forallb (fun r => sl_current_length r <=? 255) (r0 :: rs) = true.
 Proof.
-  intros Hr. destruct (group_within _ _ (tokens_within cs r1 r1 (Z.le_refl _) (proj1 Hr))) as (r0 & rs & E & H1 & H2).
+  intros Hr. destruct (group_fits _ r1 (tokens_wf 250 cs r1) (LongNamesProofs.tokens_fits 250 cs r1 ltac:(lia)))
+    as (r0 & rs & E & H1 & H2).
   exists r0, rs. split; [exact E|]. split; [exact H1|]. cbn [forallb]. apply andb_true_iff. split; [lia|].
   apply forallb_forall. intros x Hx. pose proof (proj1 (Forall_forall _ _) H2 x Hx). cbv beta in *. lia.
 Qed.
 
-(* the code's bookkeeping (5 per record, Component.length(compslice) per component) *)
+(* the code's bookkeeping (5 per record, complen per component) *)
 Theorem sl_track_lens ts : sl_lens (sl_group ts) = sl_track ts.
 Proof.
   unfold sl_track, sl_lens. induction ts as [|t r IH]; [reflexivity|]. cbn [sl_group map sumz].
   destruct (comp_of_tok t) as [c|] eqn:E.
-  - destruct (comp_of_tok_fcomp _ _ E) as [_ Hl]. pose proof (sl_group_nonnil r) as Hn.
+  - destruct (comp_of_tok_made _ _ E) as [_ Hl]. pose proof (sl_group_nonnil r) as Hn.
     destruct (sl_group r) as [|s rs]; [contradiction|]. cbn [sl_emit map sumz] in *.
     rewrite current_length_emit. lia.
   - destruct t; try discriminate. cbn [map sumz tok_len]. change (sl_current_length (mk_sl 1 [])) with 5. lia.
+Qed.
+
+(* uncut size = RRSLRecord.length(split) *)
+Lemma uncut_len t : len_sl (LongNames.split_slash t) = 5 + LongNames.comps_size (LongNames.sl_components t).
+Proof.
+  rewrite LongNamesProofs.components_size. unfold len_sl. rewrite fold_left_sum. reflexivity.
+Qed.
+
+(* the uncut components fit the first room: one record, of the uncut length *)
+Theorem sl_single r1 t : t <> [] -> len_sl (LongNames.split_slash t) <= 5 + r1 ->
+  exists r0, sl_group (LongNames.sl_tokens 250 r1 (LongNames.sl_components t)) = [r0] /\
+             sl_current_length r0 = len_sl (LongNames.split_slash t).
+Proof.
+  intros Hne Hl. rewrite uncut_len in *.
+  destruct (LongNamesProofs.render_components t Hne) as [_ L].
+  pose proof (LongNamesProofs.single_record 250 _ r1 L ltac:(lia)) as G.
+  pose proof (view_group _ (tokens_wf 250 (LongNames.sl_components t) r1)) as V. rewrite G in V.
+  pose proof (sl_group_made (LongNames.sl_tokens 250 r1 (LongNames.sl_components t))) as M.
+  destruct (sl_group _) as [|r0 [|r1' rs]]; try discriminate V. exists r0. split; [reflexivity|].
+  inversion M as [|? ? M0 _]; subst. rewrite (view_size r0 M0).
+  assert (Hv : sl_view r0 = (false, LongNames.sl_components t)) by (cbn [map] in V; congruence).
+  rewrite Hv. reflexivity.
+Qed.
+
+(* cutting only adds headers *)
+Lemma cut_total fuel : forall r2 area rest ts a, 3 <= r2 -> (length rest < fuel)%nat ->
+  LongNames.cut_name fuel r2 area rest = (ts, a) -> 2 + zlen rest <= sumz (map tok_len ts).
+Proof.
+  induction fuel as [|f IH]; intros r2 area rest ts a Hr2 Hf H; [lia|].
+  rewrite LongNamesProofs.cut_name_S in H. cbv zeta in H.
+  destruct (LongNamesProofs.cut_step r2 area rest Hr2) as (Hm & Hd & Hn). cbv zeta in Hm, Hd, Hn.
+  set (area1 := if area <? match rest with [] => 2 | _ => 3 end then r2 else area) in *.
+  set (lz := if area1 <? LongNames.len rest + 2 then area1 - 2 else LongNames.len rest) in *.
+  assert (Pre : forall (b : bool) l, sumz (map tok_len l) <= sumz (map tok_len ((if b then [LongNames.TBrk] else []) ++ l)))
+    by (intros [] l; cbn [app map sumz tok_len]; lia).
+  destruct (LongNames.len rest <=? lz) eqn:D.
+  - inversion H; subst ts a; clear H. destruct (Hd eq_refl) as (_ & _ & E). rewrite E.
+    eapply Z.le_trans; [|apply Pre]. cbn [map sumz tok_len]. lia.
+  - destruct (LongNames.cut_name f r2 _ _) as [ts' a'] eqn:R. inversion H; subst ts a; clear H.
+    destruct (Hn eq_refl) as (Hlz & Hlz1 & Hlz2). eapply Z.le_trans; [|apply Pre]. cbn [map sumz tok_len].
+    assert (Hlen : (length (skipn (Z.to_nat lz) rest) < f)%nat)
+      by (rewrite skipn_length; unfold LongNames.len in *; lia).
+    pose proof (IH _ _ _ _ _ Hr2 Hlen R) as I.
+    assert (zlen rest = zlen (firstn (Z.to_nat lz) rest) + zlen (skipn (Z.to_nat lz) rest))
+      by (rewrite <- zlen_app, firstn_skipn; reflexivity).
+    lia.
+Qed.
+Lemma tokens_total cs : forall area,
+  LongNames.comps_size cs <= sumz (map tok_len (LongNames.sl_tokens 250 area cs)).
+Proof.
+  induction cs as [|c cs IH]; intros area; [cbn; lia|].
+  cbn [LongNames.sl_tokens LongNames.comps_size fold_right]. fold (LongNames.comps_size cs).
+  destruct (LongNames.one_comp 250 area c) as [ts a] eqn:O. rewrite map_app, sumz_app. specialize (IH a).
+  assert (LongNames.comp_size c <= sumz (map tok_len ts)); [|lia].
+  destruct c as [| | |b p]; cbn [LongNames.one_comp] in O;
+    try (inversion O; subst ts a; destruct (area <? 2); cbn; lia).
+  rewrite LongNamesProofs.comp_size_name. change (LongNames.len p) with (zlen p).
+  eapply cut_total; [|
+   |exact O]; lia.
 Qed.
 
 (* ---- stage specifications ---- *)
@@ -360,12 +317,22 @@ Proof.
     replace (0 <? len_here) with true by (unfold zlen in Hl; cbn [length] in Hl; lia). reflexivity.
 Qed.
 
-Lemma sl_lens_nonneg l : 0 <= sl_lens l.
+
+Theorem sl_total_ge r1 t :
+  len_sl (LongNames.split_slash t) <= sl_lens (sl_group (LongNames.sl_tokens 250 r1 (LongNames.sl_components t))).
 Proof.
-  unfold sl_lens. apply sumz_nonneg. apply Forall_forall. intros x Hx. apply in_map_iff in Hx.
-  destruct Hx as (s & <- & _). rewrite current_length_sum.
-  pose proof (sumz_nonneg _ (comp_lens_nonneg (sl_comps s))). unfold comp_lens. lia.
+  rewrite sl_track_lens, uncut_len. unfold sl_track.
+  pose proof (tokens_total (LongNames.sl_components t) r1). lia.
 Qed.
+
+Lemma sl_lens_nonneg l : Forall sl_made l -> 0 <= sl_lens l.
+Proof.
+  intros H. unfold sl_lens. apply sumz_nonneg. apply Forall_forall. intros x Hx. apply in_map_iff in Hx.
+  destruct Hx as (s & <- & Hs). rewrite (view_size s (proj1 (Forall_forall _ _) H s Hs)).
+  pose proof (LongNamesProofs.comps_size_nonneg (snd (sl_view s))). lia.
+Qed.
+Lemma sl_lens_app a b : sl_lens (a ++ b) = sl_lens a + sl_lens b.
+Proof. unfold sl_lens. rewrite map_app, sumz_app. reflexivity. Qed.
 
 (* room and side the first RRSLRecord starts with *)
 Definition sl_room (cur : Z) : Z := if cur + 8 <? 254 then 254 - cur - 5 else 250.
@@ -377,21 +344,27 @@ Theorem sl_stage_spec hc t s d c s' : sl_stage hc t s = Some ((d, c), s') -> 0 <
   fst s' = fst s + sl_lens d /\ snd s' = snd s + (if hc then sl_lens c else 0) /\
   Forall sl_made (d ++ c) /\ Forall (fun r => sl_current_length r <= 255) (d ++ c) /\
   (fst s <= ALLOWED_DR_SIZE -> fst s' <= ALLOWED_DR_SIZE) /\
-  (hc = false -> fst s + len_sl (LongNames.split_slash t) <= ALLOWED_DR_SIZE).
+  (hc = false -> fst s + len_sl (LongNames.split_slash t) <= ALLOWED_DR_SIZE) /\
+  (hc = false -> t <> [] -> fst s + 8 < ALLOWED_DR_SIZE ->
+   c = [] /\ sl_lens d = len_sl (LongNames.split_slash t)).
 Proof.
   destruct s as [cur cel]. unfold sl_stage, ALLOWED_DR_SIZE. cbn [fst snd]. intros H Hcur.
   destruct ((254 <? cur + len_sl (LongNames.split_slash t)) && negb hc) eqn:G; [discriminate|].
   change (len_sl [[97]]) with 8 in H. fold (sl_room cur) in H.
   pose proof (sl_room_range cur Hcur) as Hr.
-  destruct (sl_guard (sl_room cur) (LongNames.sl_components t) Hr) as (r0 & rs & E & H1 & H2).
+  destruct (sl_guard (sl_room cur) (LongNames.sl_components t) (proj2 Hr)) as (r0 & rs & E & H1 & H2).
   rewrite E in H. rewrite H2 in H. cbn [negb] in H. apply some_inv in H. inversion H; subst d c s'; clear H.
   cbn [fst snd]. rewrite firstn_skipn. rewrite <- E.
-  repeat split.
-  - destruct hc; lia.
-  - apply sl_group_made.
+  split; [reflexivity|]. split; [reflexivity|]. split; [destruct hc; lia|]. split; [apply sl_group_made|].
+  split; [|split; [|split]].
   - rewrite E. apply Forall_forall. intros x Hx. pose proof (proj1 (forallb_forall _ _) H2 x Hx). cbv beta in *. lia.
-  - intros Hle. rewrite E. unfold sl_room in H1. destruct (cur + 8 <? 254) eqn:E8; cbn [firstn sl_lens map sumz]; lia.
+  - intros Hle. rewrite E. unfold sl_room in H1. unfold sl_lens.
+    destruct (cur + 8 <? 254) eqn:E8; cbn [firstn map sumz]; lia.
   - intros ->. cbn [negb] in G. lia.
+  - intros -> Hne H8. cbn [negb] in G.
+    assert (R : sl_room cur = 254 - cur - 5) by (unfold sl_room; replace (cur + 8 <? 254) with true by lia; reflexivity).
+    destruct (sl_single (sl_room cur) t Hne ltac:(lia)) as (q & Eq & Lq). rewrite Eq.
+    replace (cur + 8 <? 254) with true by lia. unfold sl_lens. cbn [firstn skipn map sumz]. split; [reflexivity|lia].
 Qed.
 
 Theorem sl_stage_some hc t s : 0 <= fst s ->
@@ -402,7 +375,7 @@ Proof.
   replace ((254 <? cur + len_sl (LongNames.split_slash t)) && negb hc) with false
     by (destruct Hc as [->|Hc]; [rewrite andb_false_r; reflexivity|]; lia).
   change (len_sl [[97]]) with 8. fold (sl_room cur).
-  destruct (sl_guard (sl_room cur) (LongNames.sl_components t) (sl_room_range cur Hcur)) as (r0 & rs & E & _ & H2).
+  destruct (sl_guard (sl_room cur) (LongNames.sl_components t) (proj2 (sl_room_range cur Hcur))) as (r0 & rs & E & _ & H2).
   rewrite E, H2. cbn [negb]. eexists. reflexivity.
 Qed.
 
@@ -425,30 +398,33 @@ Proof.
 Qed.
 
 (* bytes: the wire format of Model/LongNames.v applied to the view is what enc_sl writes *)
-Lemma view_bytes s : sl_made s -> sl_current_length s <= 255 -> sl_flags s = 0 \/ sl_flags s = 1 ->
-  LongNames.sl_record_bytes (sl_view s) = enc_sl s.
+Lemma made_view_bytes c : made c ->
+  LongNames.comp_bytes (LongNames.pair_comp (c_flags c, c_data c)) = sl_comp_enc c.
 Proof.
-  intros [Hc _] Hl Hf. unfold LongNames.sl_record_bytes, enc_sl, sl_view. cbn [fst snd].
+  intros (s & H). destruct H as [-> | [-> | ->]]; [|reflexivity..].
+  destruct (factory_cases s) as [[-> ->]|[[-> ->]|[[-> ->]| -> ]]]; reflexivity.
+Qed.
+Lemma view_bytes s : sl_made s -> LongNames.sl_record_bytes (sl_view s) = enc_sl s.
+Proof.
+  intros [Hc Hf]. unfold LongNames.sl_record_bytes, enc_sl. cbn [fst snd sl_view].
   assert (B : flat_map LongNames.comp_bytes
                 (map (fun c => LongNames.pair_comp (c_flags c, c_data c)) (sl_comps s))
               = concat (map sl_comp_enc (sl_comps s))).
-  { induction Hc as [|c cs (b & x & ->) Hcs IH]; [reflexivity|]. cbn [map flat_map concat]. rewrite IH. f_equal.
-    rewrite view_fcomp. unfold LongNames.factory, LongNames.is_dot, LongNames.is_dotdot, LongNames.is_slash.
-    change (LongNames.zlist_eqb x [46]) with (zlist_eqb x s_dot).
-    change (LongNames.zlist_eqb x [46; 46]) with (zlist_eqb x s_dotdot).
-    change (LongNames.zlist_eqb x [47]) with (zlist_eqb x s_slash).
-    unfold mk_fcomp, sl_factory.
-    destruct (zlist_eqb x s_dot); [destruct b; reflexivity|].
-    destruct (zlist_eqb x s_dotdot); [destruct b; reflexivity|].
-    destruct (zlist_eqb x s_slash); destruct b; reflexivity. }
-  rewrite B. rewrite (current_length_sum s), <- (enc_comps_len _ Hc).
-  destruct Hf as [-> | ->]; reflexivity.
+  { induction Hc as [|c cs H1 H2 IH]; [reflexivity|]. cbn [map flat_map concat]. rewrite IH, (made_view_bytes c H1). reflexivity. }
+  unfold sl_view. cbn [fst snd]. rewrite B.
+  assert (L : 5 + LongNames.len (concat (map sl_comp_enc (sl_comps s))) = sl_current_length s).
+  { rewrite current_length_sum. f_equal. unfold comp_lens. change LongNames.len with (@zlen Z). clear B.
+    induction Hc as [|c cs H1 H2 IH]; [reflexivity|]. cbn [map concat sumz]. rewrite zlen_app, IH.
+    rewrite (made_view_size c H1), <- (made_view_bytes c H1). reflexivity. }
+  rewrite L. destruct Hf as [-> | ->]; reflexivity.
 Qed.
 
 Print Assumptions sl_rec_ok.
 Print Assumptions view_group.
 Print Assumptions sl_guard.
 Print Assumptions sl_track_lens.
+Print Assumptions sl_single.
+Print Assumptions sl_total_ge.
 Print Assumptions nm_stage_spec.
 Print Assumptions sl_stage_spec.
 Print Assumptions sl_stage_no_ce.
